@@ -614,10 +614,14 @@ class Check(common.Check):
             elif r < w[0] + w[1] + w[2]:                   # ---- buffers
                 k = rng.random()
                 if k < 0.35 or not st['buf']:
-                    kind = rng.choice(['buf', 'buf', 'buf', 'bufcons', 'bufcons', 'bufna', 'bufx', 'bufconsx'])
+                    kind = rng.choice(['buf', 'buf', 'buf', 'bufnc', 'bufnc', 'bufcons', 'bufcons', 'bufna', 'bufx', 'bufconsx'])
                     fr, ch = f'i{rng.choice([8, 64, 1024])}', f'i{rng.randint(1, 2)}'
                     if kind == 'buf':
                         ops.append(f'buf {fr} {ch} {self.gen_completion(rng)}'); st['buf'] += 1
+                    elif kind == 'bufnc':
+                        ops.append(f'bufnc {fr} {ch} {self.gen_completion(rng)}'); st['buf'] += 1
+                        if rng.random() < 0.5:           # an uncached buffer, freed while no cached one is alive
+                            ops.append(f'bfree u{st["buf"] - 1} N')
                     elif kind == 'bufx':
                         ops.append(f'bufx {fr} {ch} i{rng.randint(0, 50)} {self.gen_completion(rng)}'); st['buf'] += 1
                     elif kind == 'bufna':
@@ -1006,6 +1010,9 @@ class Check(common.Check):
                 step = 3 if op in ('mapn', 'mapan') else 2
                 for j in range(0, len(toks) - 1, 2):
                     t, pos = toks[j + 1], 2 + (j // 2) * step + 1
+                    if t[0] == 'i' and step == 3 and pos + 1 < len(ts) and (ts[pos] != t or ts[pos + 1] != 'i1'):
+                        return {'what': f'op #{i} `{line}`: the plain bus number {t[1:]} maps ONE channel, sent as '
+                                        f'{ts[pos:pos + 2]}', 'signature': f'ids:bus:{ts[0]}', 'index': i}
                     if t[0] == 'b' and pos < len(ts):
                         bus = handles_bus[int(t[1:])] if int(t[1:]) < len(handles_bus) else None
                         if bus is None or ts[pos] != f'i{bus[1]}' or (step == 3 and ts[pos + 1] != f'i{bus[2]}'):
@@ -1023,7 +1030,7 @@ class Check(common.Check):
                 return {'what': f'op #{i} `{line}`: user-managed buffer numbers, yet the allocator went from '
                                 f'{before} to {newblocks}', 'signature': 'buffer:explicit-consumes', 'index': i}
             mbuf = re.match(r'ok u([\d,]+)', tst)
-            if mbuf and op in ('buf', 'bufx', 'bufna', 'bufcons', 'bufconsx'):
+            if mbuf and op in ('buf', 'bufnc', 'bufx', 'bufna', 'bufcons', 'bufconsx'):
                 ids = [int(x) for x in mbuf.group(1).split(',')]
                 handles_buf.extend(ids)
                 frames_buf.extend([int(line.split()[2 if op in ('bufcons', 'bufconsx') else 1][1:])] * len(ids))
@@ -1032,16 +1039,22 @@ class Check(common.Check):
                     if [g[:2] for g in got] != [['/b_alloc', f'i{x}'] for x in ids]:
                         return {'what': f'op #{i} `{line}` owns buffer ids {ids} but emitted {tmsgs}',
                                 'signature': f'create:{op}', 'index': i}
-                if op in ('buf', 'bufna', 'bufcons'):
+                if op in ('buf', 'bufnc', 'bufna', 'bufcons'):
                     alloc_owned.update(ids)
                 if op not in ('bufx', 'bufconsx') and not all(in_blocks(x, blocks) for x in ids):
                     return {'what': f'op #{i} `{line}`: ids {ids} are not held by the allocator {blocks}',
                             'signature': 'buffer:alloc-ledger', 'index': i}
                 if ids != list(range(ids[0], ids[0] + len(ids))):
                     return {'what': f'op #{i} `{line}`: ids {ids} not consecutive', 'signature': 'buffer:consecutive'}
-            elif op in ('buf', 'bufx', 'bufna') and tst.startswith(('ok', 'exc')) and not mbuf:
+            elif op in ('buf', 'bufnc', 'bufx', 'bufna') and tst.startswith(('ok', 'exc')) and not mbuf:
                 handles_buf.append(None)
                 frames_buf.append(None)
+            if op == 'bfree' and tst.startswith('exc'):
+                h = int(line.split()[1][1:])
+                if h < len(handles_buf) and handles_buf[h] is not None:
+                    return {'what': f'op #{i} `{line}`: the buffer owns number {handles_buf[h]}; free() raised '
+                                    f'{tst.split()[0][4:]} instead of sending /b_free and giving the number back',
+                            'signature': 'free:raises', 'index': i}
             if op == 'bfree' and tst.startswith('ok'):
                 h = int(line.split()[1][1:])
                 if h < len(handles_buf):
